@@ -1,11 +1,12 @@
 use crate::infra::Check;
 
+pub mod c02;
 pub mod c04;
 pub mod c05;
 pub mod c19;
 
 pub fn all() -> Vec<Box<dyn Check>> {
-    vec![Box::new(c04::C04), Box::new(c05::C05), Box::new(c19::C19)]
+    vec![Box::new(c02::C02), Box::new(c04::C04), Box::new(c05::C05), Box::new(c19::C19)]
 }
 
 /// Mixed-radix decoder: turns an item index into one choice per dimension.
